@@ -20,9 +20,11 @@ import (
 	"io"
 	"math"
 	"math/rand"
+	"runtime"
 	"slices"
 	"sort"
 	"strings"
+	"sync"
 	"testing"
 	"time"
 
@@ -1045,6 +1047,10 @@ func c16Reputation(v *verifOut) {
 			in["reputations_before"] = []string{before[0].String(), before[1].String(), before[2].String()}
 			picked := signers != nil && !(hv > view-uint64(int64(sc.cl)))
 			v.Seen(fmt.Sprintf("rep n=%d cl=%d seed=%d %v step=%d", sc.n, sc.cl, sc.seed, in["committed_chain"], step)+strings.Join(trace, ";"), picked && sc.n >= 4, in)
+			if picked && wf && !o[0].panicked && o[0].id == 0 {
+				// RepBased's "no answer": every voter's weight uint(reputation*10) is 0 (weightedrand refuses)
+				v.Count("reputation_no_leader_all_weights_zero")
+			}
 			switch {
 			case picked:
 				v.Count("reputation_weighted_pick")
@@ -1314,11 +1320,186 @@ func c16Growth(v *verifOut) {
 	}
 }
 
+// ---------------------------------------------------------------------------------------------
+// several rotation objects in one process: the answers of one object must not depend on what other objects
+// (other replicas in the same process: twins, tests, the orchestration worker) are asked at the same time.
+//   solo        - one object runs a script of (committed head, queried view) alone: the reference
+//   concurrent  - several separately wired objects (own ids, own storage, signer lists in their own order)
+//                 run the same script, each on its own goroutine, started together
+//   interleaved - on ONE goroutine, between any two calls of object X another object Y (other chain, other
+//                 seed) is asked about other views
+
+type c16Step struct {
+	k    int // committed head: index into the chain, -1 = genesis
+	view uint64
+}
+
+func c16Script(rng *rand.Rand, chain *c16Chain, cl int) []c16Step {
+	var out []c16Step
+	for k := -1; k < len(chain.blocks); k++ {
+		hv := uint64(0)
+		if k >= 0 {
+			hv = chain.blocks[k].view
+		}
+		act := hv + uint64(int64(cl))
+		for _, view := range []uint64{act, act, act + 1, act + uint64(rng.Intn(9)), act, uint64(rng.Intn(30)), act + 2, act} {
+			out = append(out, c16Step{k, view})
+		}
+	}
+	return out
+}
+
+type c16Actor struct {
+	r      *c16Replica
+	blocks []*hotstuff.Block
+	lr     LeaderRotation
+}
+
+func c16NewActor(id hotstuff.ID, n int, seed int64, chain *c16Chain, perm func([]hotstuff.ID) []hotstuff.ID, flavour int, scheme string, cl int) *c16Actor {
+	r := c16NewReplica(id, n, seed, nil)
+	return &c16Actor{r: r, blocks: chain.build(r, perm, true, flavour), lr: r.rotation(scheme, cl)}
+}
+
+func (a *c16Actor) ask(st c16Step) c16Obs {
+	if st.k < 0 {
+		a.r.vs.UpdateCommittedBlock(hotstuff.GetGenesis())
+	} else {
+		a.r.vs.UpdateCommittedBlock(a.blocks[st.k])
+	}
+	return c16Leader(a.lr, hotstuff.View(st.view))
+}
+
+func (a *c16Actor) run(script []c16Step) []c16Obs {
+	out := make([]c16Obs, len(script))
+	for i, st := range script {
+		out[i] = a.ask(st)
+	}
+	return out
+}
+
+func c16Concurrent(v *verifOut) {
+	sc_ := v.Stream("carousel", "carousel_mismatches", 400)
+	rng := v.rng
+	if runtime.GOMAXPROCS(0) < 4 {
+		defer runtime.GOMAXPROCS(runtime.GOMAXPROCS(4))
+	}
+	const actors = 8
+	for _, scheme := range []string{NameCarousel, NameReputation} {
+		for rd := 0; rd < v.Pick(6, 40); rd++ {
+			n := []int{4, 7, 10, 13}[rd%4]
+			cl := 1 + rd%3
+			seed := c16Seed(rng)
+			chain := c16GenChain(rng, n, 8+rng.Intn(5), uint64(rng.Intn(4)), 0, nil)
+			script := c16Script(rng, chain, cl)
+			solo := c16NewActor(1, n, seed, chain, c16Same, 0, scheme, cl)
+			want := solo.run(script)
+			loops := 1
+			if scheme == NameCarousel {
+				loops = v.Pick(12, 40) // the carousel has no state: every actor repeats the script
+			}
+			describe := func(i int) map[string]any {
+				st := script[i]
+				m := map[string]any{"scheme": scheme, "n": n, "chain_length_param": cl, "shared_seed": seed, "script_position": i, "script_length": len(script),
+					"committed_head_index": st.k, "queried_view": st.view, "answer_when_run_alone": want[i].String()}
+				var bl []map[string]any
+				for j := 0; j <= st.k; j++ {
+					b := chain.blocks[j]
+					bl = append(bl, map[string]any{"view": b.view, "proposer": uint32(b.proposer), "qc_signers": fmt.Sprint(b.signers)})
+				}
+				m["committed_chain"] = bl
+				return m
+			}
+			for i, st := range script {
+				v.Seen(fmt.Sprintf("conc %s n=%d cl=%d seed=%d rd=%d i=%d", scheme, n, cl, seed, rd, i), true, nil)
+				if scheme == NameCarousel && rd < 2 {
+					sv := seed + int64(st.view)
+					var voters []hotstuff.ID
+					if st.k >= 0 {
+						voters = c16SignerList(solo.blocks[st.k])
+					}
+					v.Case(sc_, fmt.Sprintf("(%s, %s, [(%s, %s)], %s, %s, %s)", solo.r.gConfig(), gZ(int64(cl)), gZ(sv), gZ(c16Drawn(sv)),
+						chain.gHead(st.k, voters), gN(st.view), want[i].g()), map[string]any{"replica": "solo", "input": describe(i)})
+				}
+			}
+			// concurrent: separately wired objects, one goroutine each, released together
+			as := make([]*c16Actor, actors)
+			for g := range as {
+				perm := c16Same
+				if g%2 == 1 {
+					perm = c16Shuffled(rand.New(rand.NewSource(int64(rd*100 + g))))
+				}
+				as[g] = c16NewActor(hotstuff.ID(g%n+1), n, seed, chain, perm, g%2, scheme, cl)
+			}
+			got := make([][][]c16Obs, actors)
+			var start, done sync.WaitGroup
+			start.Add(1)
+			for g := range as {
+				done.Add(1)
+				go func(g int) {
+					defer done.Done()
+					start.Wait()
+					for l := 0; l < loops; l++ {
+						got[g] = append(got[g], as[g].run(script))
+					}
+				}(g)
+			}
+			start.Done()
+			done.Wait()
+			bad := false
+			for g := range got {
+				for l := range got[g] {
+					for i := range script {
+						v.Count("concurrent_" + scheme)
+						if !got[g][l][i].same(want[i]) && !bad {
+							bad = true
+							in := describe(i)
+							in["concurrent_objects"] = actors
+							in["object"] = g
+							in["repetition"] = l
+							in["answer_when_run_concurrently"] = got[g][l][i].String()
+							v.Oracle(false, scheme+":concurrent-instances-disagree", fmt.Sprintf("%s GetLeader(%d) under the same committed head and seed: an object running alone says %s, one of %d separately wired objects running the same script on their own goroutines says %s", scheme, script[i].view, want[i], actors, got[g][l][i]), in)
+						}
+					}
+				}
+			}
+			if !bad {
+				v.Oracle(true, "", "", nil)
+			}
+			// interleaved on one goroutine: Y (another chain, another seed) is asked between X's calls
+			x := c16NewActor(hotstuff.ID(n), n, seed, chain, c16Shuffled(rand.New(rand.NewSource(int64(rd)))), 1, scheme, cl)
+			// Y's chain has the same block views (so the same rounds are active) but its own proposers and signers
+			otherChain := c16GenChain(rng, n, len(chain.blocks), 1, 0, nil)
+			for j := range otherChain.blocks {
+				otherChain.blocks[j].view = chain.blocks[j].view
+			}
+			y := c16NewActor(2, n, seed+12345, otherChain, c16Same, 0, scheme, cl)
+			yScript := c16Script(rng, otherChain, cl)
+			bad = false
+			for i, st := range script {
+				y.ask(st) // the same question, about another chain with another seed, right before X's
+				o := x.ask(st)
+				y.ask(yScript[(3*i)%len(yScript)])
+				v.Count("interleaved_" + scheme)
+				if !o.same(want[i]) && !bad {
+					bad = true
+					in := describe(i)
+					in["answer_when_interleaved"] = o.String()
+					v.Oracle(false, scheme+":other-instance-interferes", fmt.Sprintf("%s GetLeader(%d): an object running alone says %s, the same script with another object (other chain, other seed) asked in between says %s", scheme, st.view, want[i], o), in)
+				}
+			}
+			if !bad {
+				v.Oracle(true, "", "", nil)
+			}
+		}
+	}
+}
+
 func TestVerifC16(t *testing.T) {
 	v := verifNew("C16")
 	c16Stateless(v)
 	c16Carousel(v)
 	c16Reputation(v)
 	c16Growth(v)
-	v.Close("stateless: every (scheme, n in 1..64, view in grid) on two replicas; carousel/reputation: every (committed chain, head, queried view) on three replicas plus a first-time asker / an object asked other views; membership growth k -> n after the objects exist (all five schemes); large non-contiguous ids; non-trivial = n >= 2 and view >= n (stateless), active carousel / weighted pick with n >= 4")
+	c16Concurrent(v)
+	v.Close("stateless: every (scheme, n in 1..64, view in grid) on two replicas; carousel/reputation: every (committed chain, head, queried view) on three replicas plus a first-time asker / an object asked other views; membership growth k -> n after the objects exist (all five schemes); large non-contiguous ids; 8 separately wired carousel / reputation objects on their own goroutines and interleaved on one goroutine vs. an object running alone; non-trivial = n >= 2 and view >= n (stateless), active carousel / weighted pick with n >= 4")
 }
